@@ -9,10 +9,8 @@ props = [json.loads(l) for l in open(os.path.join(V, "properties.jsonl"))]
 SM_NOTE = ("Trusted: TLC; the HAL simulator clock (exact on the 1/64 s grid) and in-process NetworkTables; the recorder in "
            "harness/drivers/sm_driver.py (public API and user callbacks only). Bounds: exhaustive runs are bounded in "
            "behaviour length and machine time (evidence.tlc_runs); a state function performs up to 2 (exhaustive) / 3 (simulated) / 4 (random) in-state "
-           "actions; the default state's function requests no transition; programs that select a state after the machine "
-           "stopped inside the same iteration are outside the explored space except for the directed history of the open "
-           "finding F8 (known_findings.json), which C02/C03 replay and report as KNOWN-FINDING (the autonomous variant does "
-           "explore it). State functions may raise: caught exceptions are judged like any other step; once an exception has "
+           "actions; exhaustive exploration lets neither the default state's function request a transition nor a state function "
+           "select a state after the machine stopped under it (the random histories do both). State functions may raise: caught exceptions are judged like any other step; once an exception has "
            "left execute() the behaviour is still compared with the specification step by step but no longer judged by the "
            "invariants (the properties do not quantify over raising state functions).")
 CLAIMED = {
